@@ -92,21 +92,31 @@ def exprToks : Expr → List MTok
   | .ix a i => exprToks a ++ .sym '[' :: (exprToks i ++ [.sym ']'])
   | .six a i => exprToks a ++ .sym '[' :: (exprToks i ++ [.sym ']'])
 
-/-- `e, e, e` -/
-def argsToks : List Expr → List MTok
+/-- one argument of a call: `e` or `k=e` -/
+def argToks : Arg → List MTok
+  | (none, e) => exprToks e
+  | (some k, e) => .name k :: .sym '=' :: exprToks e
+
+/-- `e, e, k=e` -/
+def argsToks : List Arg → List MTok
   | [] => []
-  | [e] => exprToks e
-  | e :: r => exprToks e ++ .sym ',' :: argsToks r
+  | [a] => argToks a
+  | a :: r => argToks a ++ .sym ',' :: argsToks r
 
 def xexprToks : XExpr → List MTok
   | .pure e => exprToks e
   | .call f args => exprToks f ++ .sym '(' :: (argsToks args ++ [.sym ')'])
 
-/-- `a, b, c` -/
-def namesToks : List Name → List MTok
+/-- one parameter of a macro: `a` or `a=default` -/
+def paramToks : Param → List MTok
+  | (n, none) => [.name n]
+  | (n, some e) => .name n :: .sym '=' :: exprToks e
+
+/-- `a, b, c='x'` -/
+def paramsToks : List Param → List MTok
   | [] => []
-  | [n] => [.name n]
-  | n :: r => .name n :: .sym ',' :: namesToks r
+  | [p] => paramToks p
+  | p :: r => paramToks p ++ .sym ',' :: paramsToks r
 
 /-- `n=e; m=e` -/
 def bindsToks : List (Name × Expr) → List MTok
@@ -121,7 +131,7 @@ def optToks : Option Expr → List MTok
 /-- the value of a directive (attribute form / text-template block) -/
 def dirToks : Dir → List MTok
   | .def_ f [] => [.name f]
-  | .def_ f ps => .name f :: .sym '(' :: (namesToks ps ++ [.sym ')'])
+  | .def_ f ps => .name f :: .sym '(' :: (paramsToks ps ++ [.sym ')'])
   | .when e => optToks e
   | .otherwise => []
   | .for_ v e => .name v :: .name kwIn :: exprToks e
@@ -153,6 +163,17 @@ mutual
     | [] => []
     | n :: ns => nodeNew n ++ nodesNew ns
 end
+
+/-- the same printer on the flat token form of a template (`toTokss`): one token at a time -/
+def ttokNew : TTok → Str
+  | .text s => s
+  | .xexpr x => '$' :: '{' :: (xexprSrc x ++ ['}'])
+  | .dir d => Scan.printNewTok (.dir d.name (dirSrc d))
+  | .end_ => Scan.printNewTok (.dir kwEnd [])
+
+def ttoksNew : List TTok → Str
+  | [] => []
+  | t :: ts => ttokNew t ++ ttoksNew ts
 
 def oldLine (cmd val : Str) : Str :=
   '#' :: (cmd ++ ((if val.isEmpty then [] else ' ' :: val) ++ ['\n']))
@@ -203,18 +224,40 @@ def exprOk (st : Bool) : Expr → Bool
   | .ix a i => !st && exprOk st a && exprOk st i
   | .six a i => st && exprOk st a && exprOk st i
 
+def argOk (st : Bool) : Arg → Bool
+  | (none, e) => exprOk st e
+  | (some k, e) => nameOk k && exprOk st e
+
+/-- positional arguments come before keyword arguments (`kw`: a keyword argument was seen) -/
+def argsOrdered : Bool → List Arg → Bool
+  | _, [] => true
+  | kw, (none, _) :: r => !kw && argsOrdered false r
+  | _, (some _, _) :: r => argsOrdered true r
+
+def argsOk (st : Bool) (args : List Arg) : Bool := args.all (argOk st) && argsOrdered false args
+
 def xexprOk (st : Bool) : XExpr → Bool
   | .pure e => exprOk st e
-  | .call (.var f) args => !st && nameOk f && args.all (exprOk st)
-  | .call (.svar f) args => st && nameOk f && args.all (exprOk st)
+  | .call (.var f) args => !st && nameOk f && argsOk st args
+  | .call (.svar f) args => st && nameOk f && argsOk st args
   | .call _ _ => false
+
+def paramOk (st : Bool) : Param → Bool
+  | (n, none) => nameOk n
+  | (n, some e) => nameOk n && exprOk st e
+
+/-- parameters with a default come last (`dflt`: a default was seen) -/
+def paramsOrdered : Bool → List Param → Bool
+  | _, [] => true
+  | dflt, (_, none) :: r => !dflt && paramsOrdered false r
+  | _, (_, some _) :: r => paramsOrdered true r
 
 def optOk (st : Bool) : Option Expr → Bool
   | none => true
   | some e => exprOk st e
 
 def dirOk (st : Bool) : Dir → Bool
-  | .def_ f ps => nameOk f && ps.all nameOk
+  | .def_ f ps => nameOk f && ps.all (paramOk st) && paramsOrdered false ps
   | .when e => optOk st e
   | .otherwise => true
   | .for_ v e => nameOk v && exprOk st e
@@ -245,5 +288,25 @@ mutual
     | n :: ns => nodeOk st n && nodesOk st ns &&
         !(isTextNode n && (match ns with | m :: _ => isTextNode m | [] => false))
 end
+
+/-! the side condition on the flat token form (implied by `nodesOk`; also covers token lists whose
+    blocks are not balanced: `{% if x %}` without `{% end %}`, a stray `{% end %}`) -/
+
+def ttokOk (st : Bool) : TTok → Bool
+  | .text s => textOk s
+  | .xexpr x => xexprOk st x
+  | .dir d => dirOk st d
+  | .end_ => true
+
+def isTextTok : TTok → Bool
+  | .text _ => true
+  | _ => false
+
+/-- no two text tokens in a row -/
+def noAdjText : List TTok → Bool
+  | [] => true
+  | t :: ts => !(isTextTok t && (match ts with | u :: _ => isTextTok u | [] => false)) && noAdjText ts
+
+def ttoksOk (st : Bool) (ts : List TTok) : Bool := ts.all (ttokOk st) && noAdjText ts
 
 end Genshi.Tmpl.Print
